@@ -345,8 +345,9 @@ pub fn json_to_js_value_with_guard(
             let obj = interp.create_object(guard);
             for (key, value) in map {
                 let js_value = json_to_js_value_with_guard(interp, value, guard)?;
-                let interned_key = PropertyKey::String(interp.intern(key));
-                obj.borrow_mut().set_property(interned_key, js_value);
+                // canonical key: "0" must be the same property as 0
+                let property_key = interp.property_key(key);
+                obj.borrow_mut().set_property(property_key, js_value);
             }
             JsValue::Object(obj)
         }
